@@ -1,8 +1,9 @@
 /-
 C12 — finalize locks the configuration; unlock_config always restores the lock.
 -/
-import Gin.State
+import Gin.Machine
 import Gin.Lemmas.Call
+import Gin.Lemmas.Eval
 
 namespace Gin.C12
 open Gin Gin.AList
@@ -109,6 +110,13 @@ theorem lock_changes_only_by (st : State) (op : Op) :
     · rename_i σ _
       have := call_locked id st sel σ args kwargs
       split <;> simp_all
+  | ecall sel enter args kwargs =>
+    simp only [step]
+    split
+    · rfl
+    · split
+      · rename_i h; exact (callCfg_frame _ _ _ _ _ _ _ _ h).locked
+      · rfl
   | getb sel σ inh => rfl
   | addHook h => rfl
   | constant name valid v =>
